@@ -556,3 +556,40 @@ void h_ratom_anchor(void)
 	__CPROVER_assert(0, "canary");
 #endif
 }
+
+/* ================================================================== BOUNDED: ratom_match for a literal run (C10, C12) */
+/* every ASCII literal of 1..3 bytes against every ASCII subject tail of up to 4 bytes, with and
+ * without case folding: the atom matches iff the subject continues with the literal (letters
+ * compared without regard to case when folding), and then consumes exactly the literal's length */
+#define FOLD(c)	(((c) >= 'A' && (c) <= 'Z') ? (c) + ('a' - 'A') : (c))
+void h_ratom_chr_bounded(void)
+{
+	char lit[4], sub[5];
+	struct ratom ra;
+	struct rstate rs;
+	int i, n = nondet_int(), m = nondet_int(), icase = nondet_bool();
+	__CPROVER_assume(1 <= n && n <= 3 && 0 <= m && m <= 4);
+	for (i = 0; i < 3; i++) {
+		lit[i] = nondet_char();
+		__CPROVER_assume(i >= n || (lit[i] > 0));
+	}
+	for (i = 0; i < 4; i++) {
+		sub[i] = nondet_char();
+		__CPROVER_assume(i >= m || (sub[i] > 0));
+	}
+	lit[n] = 0;
+	sub[m] = 0;
+	ra.ra = RA_CHR; ra.s = lit;
+	rs.o = sub; rs.s = sub; rs.flg = icase ? REG_ICASE : 0; rs.pc = 0; rs.dep = 0;
+	int r = ratom_match(&ra, &rs);
+	int same = 1;
+	for (i = 0; i < 3; i++)
+		if (i < n && (i >= m || (icase ? FOLD(lit[i]) != FOLD(sub[i]) : lit[i] != sub[i])))
+			same = 0;
+	H_ASSERT((r == 0) == same, "ratom_match: a literal matches exactly where the subject continues with it (letters without regard to case when folding)");
+	if (r == 0)
+		H_ASSERT(rs.s == sub + n, "ratom_match: a matched literal is consumed whole");
+#ifdef CANARY
+	__CPROVER_assert(0, "canary");
+#endif
+}
